@@ -22,6 +22,9 @@ What is here (nothing decides a property; verdicts come from TLC, spec/TraceAtte
     do_attestation -> do_verify_attestation (SGX) of the repository, on real files, then load -> save ->
     verify again; returns the observation record judged by TLC.
   * projections: stdout of the verify commands -> printed values; JSON certificate -> flat rows.
+  * the network (harness/fakehttp.py): the UD value typed or served by a scripted Rootstock node
+    (proper / chain grew / reorg between the two calls / 14 misbehaviours), the SGX root of trust from a
+    file or a URL (right PEM, another root, altered PEM, 404, garbage); every request is recorded.
 
 Oracle side (expected printed values) comes from the simulator's structured ground truth (`truth()`),
 never from repository code."""
@@ -33,7 +36,7 @@ import re
 import traceback
 from types import SimpleNamespace
 
-from . import certv1, certv2, env
+from . import certv1, certv2, env, fakehttp
 from .simdev import CLA, MODE_BOOT, MODE_SIGNER, PATHS, path_bytes
 from .simdev_admin import AdminSimDevice, compress
 from .transport import World
@@ -233,6 +236,7 @@ class LedgerDevice(AdminSimDevice):
         self.ui_att = None         # {"msg", "pages", "ready"}
         self.sg_att = None
         self.att_log = []
+        self.ud_seen = []          # every UD value the host handed over (UI, then signer)
 
     # ---- ground truth (what a verifier must end up printing)
     def keys65(self):
@@ -331,6 +335,8 @@ class LedgerDevice(AdminSimDevice):
         H = bytes([CLA, 0x50, op])
         a = self.alt
         self.att_log.append(("ui", op, len(data)))
+        if op == 0x01:
+            self.ud_seen.append(bytes(data))
         if not self.onboarded:
             return 0x6A02, b""                           # ATT_NO_ONBOARD
         if op == 0x04:
@@ -372,6 +378,8 @@ class LedgerDevice(AdminSimDevice):
         H = bytes([CLA, 0x50, op])
         a = self.alt
         self.att_log.append(("signer", op, len(data)))
+        if op == 0x01:
+            self.ud_seen.append(bytes(data))
         if op == 0x01:
             if len(data) != 32:
                 self.sg_att = None
@@ -528,6 +536,7 @@ class SgxDevice(AdminSimDevice):
         self.mat = None
         self.att = None
         self.att_log = []
+        self.ud_seen = []          # every UD value the host handed over (UI, then signer)
 
     def keys65(self):
         return {p: self.keys[path_bytes(p)] for p in SORTED_PATHS}
@@ -608,6 +617,8 @@ class SgxDevice(AdminSimDevice):
         H = bytes([CLA, 0x50, op])
         a = self.alt
         self.att_log.append(("sgx", op, len(data)))
+        if op == 0x01:
+            self.ud_seen.append(bytes(data))
         if op == 0x01:
             if len(data) != 32:
                 self.att = None
@@ -767,6 +778,41 @@ def _expected_failure(e):
     return type(e).__name__ in ("AdminError",)
 
 
+def errkind(exc):
+    """'none' | 'AdminError' | 'raw' (any other exception class) from the text _call returns."""
+    if exc is None:
+        return "none"
+    return "AdminError" if exc.startswith("AdminError:") else "raw"
+
+
+NODE_URLS = ("http://node.test:4444", "https://public-node.rsk.co", "http://127.0.0.1:4444/",
+             "https://rsk.example.org/rpc?key=abcdef0123456789abcdef0123456789abcdef0123456789abcdef0123456789")
+ROOT_URLS = ("https://certificates.trustedservices.intel.com/Intel_SGX_Provisioning_Certification_RootCA.pem",
+             "http://certs.test/root.pem", "https://mirror.example.org/sgx/root%20ca.pem?v=2")
+
+
+def make_node(case):
+    """The Rootstock node of a case (None when the operator types the UD value). With a properly
+    answering node the intended UD value case["ud"] IS the hash it reports for block n at the second
+    call; `reorg`: the first hash of block n is another one."""
+    if case.get("udsrc", "hex") != "node":
+        return None
+    ud = bytes.fromhex(case["ud"])
+    other = hashlib.sha256(b"replaced:" + ud).digest()
+    beh = case["node"]
+    return fakehttp.FakeNode(case["node_number"], other if beh == "reorg" else ud, beh, case.get("node_at", 0),
+                             hash_reorg=ud if beh == "reorg" else other,
+                             status=case.get("node_status", 500), junk=case.get("node_junk", "<html>busy</html>").encode(),
+                             upper=bool(case.get("ud_upper")))
+
+
+def ud_sent(dev):
+    seen = [u.hex() for u in dev.ud_seen]
+    if not seen:
+        return ""
+    return seen[0] if all(u == seen[0] for u in seen) else "|".join(seen)
+
+
 def _options(**kw):
     base = dict(verbose=False, any_pin=False, no_exec=False, no_unlock=False, pin=None, new_pin=None,
                 output_file_path=None, attestation_certificate_file_path=None,
@@ -777,7 +823,10 @@ def _options(**kw):
 
 
 def _ud_text(case):
+    """(intended UD value, what the operator passes as --attudsource: the value itself or a node URL)."""
     ud = bytes.fromhex(case["ud"])
+    if case.get("udsrc", "hex") == "node":
+        return ud, case["node_url"]
     s = ud.hex()
     if case.get("ud_upper"):
         s = s.upper()
@@ -815,7 +864,11 @@ def run_case(case, scratch, tag="c"):
 
 
 def _obs(case, truth):
-    return {"plat": case["plat"], "framing": case["framing"], "alt": case["alt"]["site"],
+    return {"udsrc": case.get("udsrc", "hex"), "node": case.get("node", "hex"), "node_at": case.get("node_at", 0),
+            "node_n": "0x%x" % case.get("node_number", 0), "node_url": case.get("node_url", ""),
+            "rootvia": case.get("rootvia", "file"), "root_url": case.get("root_url", ""),
+            "http": [], "ud_sent": "", "att_file": "no", "contacted": "no", "g_err": "none", "v_err": "none",
+            "plat": case["plat"], "framing": case["framing"], "alt": case["alt"]["site"],
             "altinfo": case["alt"], "dev": truth,
             "g_onboard": "na", "g_attest": "na", "gather": "fail",
             "file0": [], "reload0": [], "file": [], "reload": [], "reload_ok": "na",
@@ -833,6 +886,21 @@ def _run_ledger(case, scratch, tag):
     ud, ud_text = _ud_text(case)
     o = _obs(case, dev.truth(ud))
     diag = {"exc": {}, "stdout": {}, "applied": dev.alt.applied, "faithful": []}
+    http = fakehttp.FakeHttp(node=make_node(case), node_url=case.get("node_url"))
+    with fakehttp.Patched(http):
+        _run_ledger_commands(case, scratch, tag, dev, world, ud, ud_text, o, diag)
+    o["http"] = http.calls
+    o["ud_sent"] = ud_sent(dev)
+    diag["att_log"] = dev.att_log
+    diag["admin_cmds"] = [c for (c, _d) in dev.admin_log]
+    _unapplied(o, dev)
+    return o, diag
+
+
+def _run_ledger_commands(case, scratch, tag, dev, world, ud, ud_text, o, diag):
+    from admin.onboard import do_onboard
+    from admin.ledger_attestation import do_attestation
+    from admin.verify_ledger_attestation import do_verify_attestation
     f0 = os.path.join(scratch, "%s_att0.json" % tag)
     f1 = os.path.join(scratch, "%s_att1.json" % tag)
     f0b = os.path.join(scratch, "%s_att0b.json" % tag)
@@ -852,11 +920,15 @@ def _run_ledger(case, scratch, tag):
         o["reload0"] = flat_certificate(f0b) if rr == "ok" else [["reload-failed", e2 or ""]]
         # 2. UI + signer attestation, after the operator re-plugged the device
         dev.replug()
+        mark = len(world.log)
         r, exc, out = _call(world, do_attestation,
                             _options(pin=case["pin"], output_file_path=f1,
                                      attestation_certificate_file_path=f0,
                                      attestation_ud_source=ud_text, verbose=case.get("verbose", False)))
         o["g_attest"], diag["exc"]["attest"] = r, exc
+        o["g_err"] = errkind(exc)
+        o["att_file"] = "yes" if os.path.exists(f1) else "no"
+        o["contacted"] = "yes" if len(world.log) > mark else "no"
     if o["g_onboard"] == "ok" and o["g_attest"] == "ok":
         o["gather"] = "ok"
         o["file"] = flat_certificate(f1)
@@ -874,6 +946,7 @@ def _run_ledger(case, scratch, tag):
         o["verify"], diag["exc"]["verify"], out = _call(
             world, do_verify_attestation,
             _options(attestation_certificate_file_path=f1, pubkeys_file_path=pk, root_authority=root_hex))
+        o["v_err"] = errkind(diag["exc"]["verify"])
         diag["stdout"]["verify"] = out
         if o["verify"] == "ok":
             o["printed"] = parse_printed(out)
@@ -884,10 +957,6 @@ def _run_ledger(case, scratch, tag):
                          root_authority=root_hex))
             if o["verify2"] == "ok":
                 o["printed2"] = parse_printed(out2)
-    diag["att_log"] = dev.att_log
-    diag["admin_cmds"] = [c for (c, _d) in dev.admin_log]
-    _unapplied(o, dev)
-    return o, diag
 
 
 def _unapplied(o, dev):
@@ -917,6 +986,28 @@ def _run_sgx(case, scratch, tag):
     ud, ud_text = _ud_text(case)
     o = _obs(case, dev.truth(ud))
     diag = {"exc": {}, "stdout": {}, "applied": dev.alt.applied, "faithful": []}
+    http = fakehttp.FakeHttp(node=make_node(case), node_url=case.get("node_url"))
+    with fakehttp.Patched(http):
+        _run_sgx_commands(case, scratch, tag, dev, world, ud, ud_text, o, diag, http)
+    o["http"] = http.calls
+    o["ud_sent"] = ud_sent(dev)
+    diag["att_log"] = dev.att_log
+    if dev.att is not None:
+        diag["env_len"] = len(dev.att["env"])
+        diag["env_pages"] = len(dev.att["ep"].pages)
+        diag["layout"] = dev.att["layout"]
+    _unapplied(o, dev)
+    return o, diag
+
+
+GARBAGE = (b"", b"\xff\xfe\x00garbage", b"<html><body>502 Bad Gateway</body></html>",
+           b"-----BEGIN CERTIFICATE-----\n!!!! not base64 !!!!\n-----END CERTIFICATE-----\n",
+           b"-----BEGIN CERTIFICATE-----\nMIIB\n-----END CERTIFICATE-----\n", b"{}", b"0" * 4096)
+
+
+def _run_sgx_commands(case, scratch, tag, dev, world, ud, ud_text, o, diag, http):
+    from admin.sgx_attestation import do_attestation
+    from admin.verify_sgx_attestation import do_verify_attestation
     f1 = os.path.join(scratch, "%s_sgx1.json" % tag)
     f1b = os.path.join(scratch, "%s_sgx1b.json" % tag)
     pk = os.path.join(scratch, "%s_pubkeys.json" % tag)
@@ -924,11 +1015,15 @@ def _run_sgx(case, scratch, tag):
     for p in (f1, f1b, pk, rootp):
         if os.path.exists(p):
             os.unlink(p)
+    mark = len(world.log)
     r, exc, out = _call(world, do_attestation,
                         _options(pin=case["pin"], output_file_path=f1, attestation_ud_source=ud_text,
                                  no_unlock=bool(case.get("no_unlock")), any_pin=True,
                                  verbose=case.get("verbose", False)))
     o["g_attest"], diag["exc"]["attest"] = r, exc
+    o["g_err"] = errkind(exc)
+    o["att_file"] = "yes" if os.path.exists(f1) else "no"
+    o["contacted"] = "yes" if len(world.log) > mark else "no"
     m = dev.mat
     if r == "ok":
         o["gather"] = "ok"
@@ -941,18 +1036,31 @@ def _run_sgx(case, scratch, tag):
         write_pubkeys(pk, dev, random.Random("pk:%d" % case["devseed"]))
         a = dev.alt
         der = m.der["root"]
+        served = None                      # (status, body) of the root of trust
         if a.site == "root":
             if a.how == "otherkey":
                 der = m.der["fresh_root"]
+            elif a.how == "http404":
+                served = (case.get("root_status", 404), b"<html>Not Found</html>")
+            elif a.how == "garbage":
+                served = (200, GARBAGE[a.off % len(GARBAGE)])
+                a.applied.append({"site": "root", "field": None, "pos": a.off % len(GARBAGE), "len": 0})
             else:
                 reg = certv2.der_regions(der)
                 lo, hi = reg["tbs" if a.how == "tbs" else "sig"]
                 der = a.flip(der, "root", None, lo, hi)
-        with open(rootp, "wb") as f:
-            f.write(pem_of(der))
+        if served is None:
+            served = (200, pem_of(der))
+        if case.get("rootvia", "file") == "url":
+            rootp = case["root_url"]
+            http.web = fakehttp.FakeWeb({rootp: served})
+        else:
+            with open(rootp, "wb") as f:
+                f.write(served[1])
         o["verify"], diag["exc"]["verify"], out = _call(
             world, do_verify_attestation,
             _options(attestation_certificate_file_path=f1, pubkeys_file_path=pk, root_authority=rootp))
+        o["v_err"] = errkind(diag["exc"]["verify"])
         diag["stdout"]["verify"] = out
         if o["verify"] == "ok":
             o["printed"] = parse_printed(out)
@@ -963,13 +1071,6 @@ def _run_sgx(case, scratch, tag):
                          root_authority=rootp))
             if o["verify2"] == "ok":
                 o["printed2"] = parse_printed(out2)
-    diag["att_log"] = dev.att_log
-    if dev.att is not None:
-        diag["env_len"] = len(dev.att["env"])
-        diag["env_pages"] = len(dev.att["ep"].pages)
-        diag["layout"] = dev.att["layout"]
-    _unapplied(o, dev)
-    return o, diag
 
 
 def _sgx_expected(m):
@@ -990,7 +1091,9 @@ SG_IDX = {i + 1: n for i, (n, _l) in enumerate(SG_FIELDS)}
 LG_IDX = {i + 1: n for i, (n, _l) in enumerate(LG_FIELDS)}
 QB_IDX = {2: "other", 3: "mrenclave", 4: "mrsigner", 5: "rdata"}
 QE_IDX = {1: "other", 2: "rdata"}
-ROOT_HOW = {"ledger": {1: "otherkey", 2: "flip"}, "sgx": {1: "otherkey", 2: "tbs", 3: "sig"}}
+ROOT_HOW = {"ledger": {1: "otherkey", 2: "flip"},
+            "sgx": {1: "otherkey", 2: "tbs", 3: "sig", 4: "http404", 5: "garbage"}}
+NODE_NUMBERS = (0, 1, 9, 10, 15, 16, 255, 256, 0x2a51, 6543210, 0xffffffff, 0x100000000, (1 << 53) + 1)
 PINS = ("abcd1234", "1234567a", "Zz09Zz09", "a0000000")
 
 
@@ -1016,6 +1119,17 @@ def concretise(b, rng, profile=None, grind=False):
             "backend": rng.choice(("libsecp", "libsecp", "ecdsa")),
             "ui_pagesize": 255, "s_pagesize": 255, "e_pagesize": 255, "e_pages": 1,
             "qeauth": cfg["qeauth"], "npem": cfg["npem"], "model": {"cfg": cfg, "alt": a}}
+    net = b.get("net") or {"ud": "hex", "at": 0, "rootvia": "file"}
+    if net["ud"] != "hex":
+        case.update({"udsrc": "node", "node": net["ud"], "node_at": net["at"],
+                     "node_url": rng.choice(NODE_URLS),
+                     "node_number": rng.choice(NODE_NUMBERS + (rng.getrandbits(24), rng.getrandbits(40))),
+                     "node_status": rng.choice((500, 502, 503, 404, 401, 429, 301, 204, 201, 199)),
+                     "node_junk": rng.choice(("<html>busy</html>", "", "{", "[1,2", "null x", "\ufeff{}"))})
+    if net.get("rootvia", "file") == "url":
+        case.update({"rootvia": "url", "root_url": rng.choice(ROOT_URLS),
+                     "root_status": rng.choice((404, 403, 500, 503, 301, 204, 201))})
+    case["model"]["net"] = net
     if plat == "ledger":
         case["ui_pagesize"] = pagesize_for(UI_LEN, cfg["uip"], rng)
         case["s_pagesize"] = pagesize_for(LG_LEN if b["framing"] == "legacy" else SG_LEN, cfg["sp"], rng)
@@ -1095,6 +1209,11 @@ def signature(clause, case):
         for k in ("field", "page", "how"):
             if a.get(k) is not None:
                 s += " %s=%s" % (k, a[k])
+    if case.get("udsrc") == "node" and clause in ("NodeProtocol", "NodeBad", "UdDelivered", "GenuineGathers",
+                                                  "GenuineVerifies", "AlteredFails"):
+        s += " ud=node:%s%s" % (case["node"], "@%d" % case["node_at"] if case.get("node_at") else "")
+    if case.get("rootvia") == "url":
+        s += " root=url"
     if clause == "GenuineVerifies" and case.get("content", "random") != "random":
         s += " content=%s%s" % (case["content"], "+keyshash" if case.get("grind_pkh") else "")
     return s
